@@ -384,3 +384,139 @@ UNITS_C09 = [GCM_ELAB]
 UNITS_C11 = [GCM_UNWRAP]
 UNITS_C15 = [GREENLET_UNIT]
 UNITS = UNITS_C03 + UNITS_C07 + UNITS_C14 + UNITS_C15 + UNITS_C09 + UNITS_C11
+
+
+# ------------------------------------------------------------------------------------------------ C09: elaborate_exit_stack
+ES = GC_ + "elaborate_exit_stack"
+register_class("exit_stack")
+
+
+def es_setup(ex, p):
+    stack = sym_ref(p, "stack", "exit_stack")
+    c = sym_ref(p, "context", "Context")
+    cbs = sym_seq(p, "_exit_callbacks", "deque")
+    p.setf(stack.t, "_exit_callbacks", cbs.t)
+    H0 = p.snap()
+    # contextlib (assumed): _exit_callbacks is a deque of (is_sync: bool, callback) pairs
+    def entry(pth, j):
+        e_ = H0.raw(cbs.t, j)
+        return Implies(And(j >= H0.lo_(cbs.t), j < H0.hi_(cbs.t)),
+                       And(is_exact_kind(e_, "tuple"), H0.length(e_) == 2, Val.a(e_) >= 0, Val.is_boolv(H0.at(e_, 0)),
+                           Val.is_ref(H0.at(e_, 1)), Val.a(H0.at(e_, 1)) >= 0,
+                           Implies(is_kind(H0.at(e_, 1), "function"), And(Val.is_ref(H0.getf(H0.at(e_, 1), "__code__")), Val.a(H0.getf(H0.at(e_, 1), "__code__")) >= 0)),
+                           # a bound method object has a function as __func__
+                           Implies(is_kind(H0.at(e_, 1), "method"), And(Val.is_ref(H0.getf(H0.at(e_, 1), "__func__")), Val.a(H0.getf(H0.at(e_, 1), "__func__")) >= 0))))
+    p.add_schema(cbs.t, entry)
+    p.env.update(stack=stack, context=c)
+    p.ghost["filled"] = ()
+    return dict(stack=stack, context=c, cbs=cbs)
+
+
+def es_fill(ex, p, args, kwargs, node):
+    p.ghost["filled"] = p.ghost.get("filled", ()) + (args[0].t,)
+    from .c11 import HOOK_MAY_SET
+    return oracle("fill_context", havoc_fields=HOOK_MAY_SET, record=False)(ex, p, args, kwargs, node)
+
+
+def list_oracle(ex, p, args, kwargs, node):
+    return [("ok", p, SV(p.new_seq("list", length=fresh_int("n"), arr=fresh("fa", AV)), ty="list"))]
+
+
+def es_before_stmt(ex, n, p):
+    src = ast.unparse(n) if isinstance(n, (ast.Assign, ast.Expr, ast.Assert)) else ""
+    if src.startswith("args_idx ="):
+        cb = p.env["callback"].t
+        code = p.getf(cb, "__code__")
+        fv = p.getf(code, "co_freevars")
+        cl = p.getf(cb, "__closure__")
+        # CPython function objects (assumed): co_freevars is a tuple of names, __closure__ is a tuple of cells of the same length
+        p.pc += [Val.is_ref(code), is_exact_kind(fv, "tuple"), p.length(fv) >= 0, is_exact_kind(cl, "tuple"), p.length(cl) == p.length(fv),
+                 BoolVal(True)]
+        Hc = p.snap()
+        p.add_schema(cl, lambda pth, j: Implies(And(j >= Hc.lo_(cl), j < Hc.hi_(cl)), And(Val.is_ref(Hc.raw(cl, j)), Val.a(Hc.raw(cl, j)) >= 0)))
+    if src.startswith("children.append(child_context)"):
+        check_child(ex, p)
+
+
+def check_child(ex, p):
+    env = p.env
+    cb, is_sync, ctx, child = env["callback"].t, env["is_sync"].t, env["context"].t, env["child_context"].t
+    H = p.h
+    has_self = hasattr_fn("__self__")(cb)
+    self_obj = H.getf(cb, "__self__")
+    is_meth = is_kind(cb, "method")
+    fname = H.getf(H.getf(cb, "__func__"), "__name__")
+    exitname = Or(ex.eq(p, SV(fname), ex.const(p, "__exit__")), ex.eq(p, SV(fname), ex.const(p, "__aexit__")))
+    enter_form = And(has_self, Or(Not(is_meth), exitname))
+    sync = Val.b(is_sync)
+    method = env["method"].get("pyconst")
+    tag = env["tag"].get("pyconst")
+    # which of the four registration shapes the path took is visible in the chosen constant; the obligations tie that
+    # choice to the observable shape of the callback and to is_sync
+    sync_names = {"enter_context": True, "enter_async_context": False, "push": True, "push_async_exit": False,
+                  "callback": True, "push_async_callback": False}
+    ex.oblig("C09.exit_stack.method_matches_sync_kind", "clause", p, BoolVal(method in sync_names) if method not in sync_names else sync == BoolVal(sync_names[method]))
+    ex.oblig("C09.exit_stack.enter_form_iff_exit_method", "clause", p, BoolVal(method in ("enter_context", "enter_async_context")) == enter_form)
+    ex.oblig("C09.exit_stack.bound_method_push", "clause", p,
+             Implies(And(has_self, Not(enter_form)), BoolVal(method in ("push", "push_async_exit"))))
+    ex.oblig("C09.exit_stack.await_tag", "clause", p, BoolVal(tag == "await ") == And(enter_form, Not(sync)))
+    manager = If(has_self, self_obj, NONE)
+    obj_exp = If(ex.truthy(p, SV(manager)), manager, cb)
+    ex.oblig("C09.exit_stack.child_fields", "clause", p,
+             And(is_kind(child, "Context"), H.getf(child, "obj") == obj_exp, H.getf(child, "is_async") == mkbool(Not(sync)),
+                 H.getf(child, "start_line") == H.getf(ctx, "start_line"), H.getf(child, "is_exiting") == mkbool(False),
+                 H.length(env["children"].t) == Val.i(env["idx"].t)))       # appended at position idx: registration order
+
+
+def es_inv():
+    def qf(ctx):
+        ch = ctx.v("children")
+        c = ctx.v("context")
+        return And(ch == ctx.v0("children"), ctx.H.length(ch) == ctx.k, ctx.H.lo_(ch) == 0, ctx.H.getf(c, "children") == ch,
+                   ctx.v("callbacks") == ctx.v0("callbacks"), ctx.v("stackname") == ctx.v0("stackname"), c == ctx.v0("context"),
+                   ctx.H.getf(c, "start_line") == ctx.H0.getf(c, "start_line"))
+    def ghost_havoc(ctx):
+        ctx.p.ghost["filled"] = ()
+        ctx.p.ghost["raised"] = ()
+    def step(ctx):
+        # every child is itself unfolded: fill_context ran on exactly the child appended in this iteration
+        f = ctx.p.ghost.get("filled", ())
+        return And(BoolVal(len(f) == 1), f[0] == ctx.v("child_context")) if len(f) == 1 else BoolVal(False)
+    from .c11 import HOOK_MAY_SET
+    return Inv("C09.exit_stack.loop", qf=qf, ghost_havoc=ghost_havoc, steps=[("C09.exit_stack.child_unfolded_recursively", step)],
+               conts=["children"], fields=[(f, None) for f in ("description",) + tuple(HOOK_MAY_SET)])
+
+
+def es_post(ctx):
+    c = ctx.args["context"].t
+    ch = ctx.H.getf(c, "children")
+    return And(is_exact_kind(ch, "list"), ctx.H.length(ch) == ctx.H0.length(ctx.args["cbs"].t))
+
+
+def es_raise_ok(ctx):
+    # only an exception of a child's hooks propagates (recorded by the caller); nothing is swallowed on the way
+    r = ctx.p.ghost.get("raised", ())
+    return And(BoolVal(len(r) == 1), ctx.exc.t == r[0]) if len(r) == 1 else BoolVal(False)
+
+
+def es_nothing_swallowed(ctx):
+    return BoolVal(len(ctx.p.ghost.get("raised", ())) == 0)
+
+
+EXIT_STACK_UNIT = Unit("C09.elaborate_exit_stack", ES, es_setup,
+                       post=[Clause("C09.exit_stack.one_child_per_callback", es_post),
+                             Clause("C05.exit_stack.no_hook_exception_swallowed", es_nothing_swallowed)],
+                       bindings=dict(EXTRACT_BINDINGS, format_funcname=str_oracle("format_funcname"), format_funcargs=list_oracle,
+                                     **{"_extract.fill_context": es_fill}),
+                       methods=dict(STD_METHODS), ctors=dict(CTORS), known_classes=KNOWN,
+                       invariants={(ES, "for#1"): es_inv()}, before_stmt=es_before_stmt, allowed_raise=es_raise_ok,
+                       field_types={"_exit_callbacks": "deque", "co_freevars": "tuple", "__closure__": "tuple"},
+                       options=dict(iter_any_seq=True),
+                       assumptions=["contextlib storage (assumed, checked against the running contextlib by legs/c09_trees.py): "
+                                    "_exit_callbacks is a deque of (is_sync, callback); enter_context/push(cm) store MethodType(__exit__, cm); "
+                                    "push(bound method) stores it; push(fn) stores fn; callback(f, ...) stores a closure named _exit_wrapper "
+                                    "with __wrapped__ = f and free variables args, kwds",
+                                    "CPython functions: len(__closure__) == len(__code__.co_freevars)",
+                                    "format_funcname / format_funcargs / repr are total"])
+UNITS_C09.append(EXIT_STACK_UNIT)
+UNITS.append(EXIT_STACK_UNIT)
